@@ -275,6 +275,10 @@ func (x *Exec) VerifyFunction(fn *ssa.Function, con *FuncContract) (obls []*Obl,
 				err = fmt.Errorf("%s: %v", x.rootKey, u)
 				return
 			}
+			if se, ok := r.(*SpecError); ok {
+				err = fmt.Errorf("%s: contract error: %v", x.rootKey, se)
+				return
+			}
 			panic(r)
 		}
 	}()
@@ -319,8 +323,20 @@ func (x *Exec) VerifyFunction(fn *ssa.Function, con *FuncContract) (obls []*Obl,
 		for _, c := range con.Clauses {
 			switch c.Kind {
 			case "let":
-				tv := x.evalSpec(env, c.E)
-				env.bind(c.Name, tv)
+				// lets that mention results or recorded calls cannot be evaluated at entry: they are
+				// evaluated in the post-state instead
+				func() {
+					defer func() {
+						if r := recover(); r != nil {
+							if _, ok := r.(*SpecError); ok {
+								return
+							}
+							panic(r)
+						}
+					}()
+					tv := x.evalSpec(env, c.E)
+					env.bind(c.Name, tv)
+				}()
 			case "requires":
 				t := x.specBool(env, c.E)
 				st.Assume(t)
@@ -803,7 +819,7 @@ func (x *Exec) callMayWriteHeap(c *ssa.CallCommon) bool {
 	}
 	if fn := c.StaticCallee(); fn != nil {
 		k := funcKey(fn)
-		if pureIntrinsics[k] {
+		if pureIntrinsics[k] || isLoggingKey(k) {
 			return false
 		}
 		if con := x.CS.Funcs[k]; con != nil && con.Pure {
@@ -866,7 +882,7 @@ func (x *Exec) callMayWriteHeapDepth(c *ssa.CallCommon, depth int) bool {
 	}
 	if fn := c.StaticCallee(); fn != nil {
 		k := funcKey(fn)
-		if pureIntrinsics[k] {
+		if pureIntrinsics[k] || isLoggingKey(k) {
 			return false
 		}
 		if con := x.CS.Funcs[k]; con != nil && con.Pure {
